@@ -90,6 +90,8 @@ func main() {
 		t := fs.Int("t", 10000, "per-case timeout in ms")
 		fs.Parse(os.Args[2:])
 		master(*j, time.Duration(*t)*time.Millisecond)
+	case "coldhistchild":
+		coldHistChild()
 	case "coldchild":
 		coldChild()
 	case "oracle":
